@@ -51,6 +51,11 @@ func Called(s string) bool { return false }
 // CallCount is the number of calls on this path whose name contains s.
 func CallCount(s string) int { return 0 }
 
+// CallCountWith: number of matching calls whose i-th argument is v (and, for
+// CallCountWith2, whose j-th argument is w as well).
+func CallCountWith[T any](s string, i int, v T) int                  { return 0 }
+func CallCountWith2[T, U any](s string, i int, v T, j int, w U) int { return 0 }
+
 // CalledWith reports that some call whose name contains s had argument i == v.
 func CalledWith[T any](s string, i int, v T) bool { return false }
 
